@@ -63,3 +63,8 @@ CHECKS["C13"] = {
   "note": "In-range requests only; one buffer kind per context; same-buffer xbuffer copies only with disjoint ranges; dtype conversions generated exact.",
   "technique": "exhaustive small-scope enumeration + property-based testing against a bytes reference model",
 }
+CHECKS["C14"] = {
+  "text": "Exploration with an exhaustive small scope: dependency graphs over classes of every kind (field-less Struct, Struct, Array, UnionRef, HybridClass, declared-dependency-only Struct; edges through fields, Ref fields, anonymous array fields, array items, union members, _depends_on incl. cycles and self loops), root lists in any order with duplicates. Oracle from the harness' own dependency record: sort_classes lists every API class of the closure exactly once and after its dependencies, nothing else; the source written by add_kernels(compile=False) has one typedef block per class and no use before it; cffi accepts the declarations, gcc -fsyntax-only the source, a sample goes through the real add_kernels build; a cycle reachable from the roots raises and writes nothing. ALL graphs on <=3 (quick) / <=4 (thorough) classes are enumerated; Hypothesis generates graphs up to 6 / 7 classes.",
+  "note": "Unique class names per case; hybrid roots passed as their _XoStruct; arrays and unions carry no declared dependencies.",
+  "technique": "exhaustive small-scope enumeration + property-based testing of generated class graphs against a harness-side dependency model, cffi and gcc as acceptance oracles",
+}
